@@ -68,15 +68,15 @@ impl Cfg {
     fn generate(seed: u64, index: u64) -> Cfg {
         let mut st = seed ^ index.wrapping_mul(0xD6E8_FEB8_6659_FD93) ^ 0xC20;
         let threads = 2 + below(&mut st, 7) as usize;
-        const PARTS: [&str; 12] = ["", "_", "a", "tmp_0_0", "0", "1_2", "name-part", "x_1", "index.gbz", "v1.2", ".", "a.b.c"];
+        const PARTS: [&str; 15] = ["", "_", "a", "tmp_0_0", "0", "1_2", "name-part", "x_1", "index.gbz", "v1.2", ".", "a.b.c", "x", "./x", "<TMP>/x"];
         let same = below(&mut st, 3) == 0;
         let long = |st: &mut u64| -> String { let n = [200usize, 245, 250, 255, 300][below(st, 5) as usize]; let mut s = String::from("long-"); while s.len() < n { s.push((b'a' + (s.len() % 26) as u8) as char); } s };
-        let first = if below(&mut st, 16) == 0 { long(&mut st) } else { PARTS[below(&mut st, 12) as usize].to_string() };
+        let first = if below(&mut st, 16) == 0 { long(&mut st) } else { PARTS[below(&mut st, 15) as usize].to_string() };
         let mut calls = Vec::new();
         let mut parts = Vec::new();
         for _ in 0..threads {
             calls.push(1 + below(&mut st, 4) as usize);
-            parts.push(if same { first.clone() } else if below(&mut st, 20) == 0 { long(&mut st) } else { PARTS[below(&mut st, 12) as usize].to_string() });
+            parts.push(if same { first.clone() } else if below(&mut st, 20) == 0 { long(&mut st) } else { PARTS[below(&mut st, 15) as usize].to_string() });
         }
         let main_calls = below(&mut st, 3) as usize;
         let stale = if below(&mut st, 4) == 0 { 1 + below(&mut st, 6) as usize } else { 0 };
@@ -116,6 +116,7 @@ fn scenario(cfg: Arc<Cfg>) -> impl Fn() + Send + Sync + 'static {
             for p in cfg.parts.iter() { if !distinct.contains(&p) { distinct.push(p); } }
             let total_calls: usize = cfg.calls.iter().sum::<usize>() + cfg.main_calls + distinct.len();
             for part in distinct {
+                let part = &part.replace("<TMP>", &std::env::temp_dir().to_string_lossy());
                 let probe = simple_sds::serialize::temp_file_name(part);
                 results.lock().unwrap().push((usize::MAX - 1, probe.to_string_lossy().into_owned()));
                 let text = probe.to_string_lossy().into_owned();
@@ -137,8 +138,9 @@ fn scenario(cfg: Arc<Cfg>) -> impl Fn() + Send + Sync + 'static {
             let cfg = cfg.clone();
             let results = results.clone();
             handles.push(shuttle::thread::spawn(move || {
+                let part = cfg.parts[t].replace("<TMP>", &std::env::temp_dir().to_string_lossy());
                 for _ in 0..cfg.calls[t] {
-                    let path = simple_sds::serialize::temp_file_name(&cfg.parts[t]);
+                    let path = simple_sds::serialize::temp_file_name(&part);
                     let s = path.to_string_lossy().into_owned();
                     results.lock().unwrap().push((t, s));
                 }
@@ -155,9 +157,11 @@ fn scenario(cfg: Arc<Cfg>) -> impl Fn() + Send + Sync + 'static {
         let mut seen: BTreeSet<&str> = BTreeSet::new();
         for (t, name) in results.iter() {
             if *t == usize::MAX - 1 { if !seen.insert(name.as_str()) { let msg = format!("C20 duplicate: the path {:?} was returned to two calls", name); if let Ok(mut g) = VIOLATED.lock() { *g = Some(msg.clone()); } panic!("{}", msg); } continue; }
-            let part = if *t == usize::MAX { "main" } else { cfg.parts[*t].as_str() };
+            let owned = if *t == usize::MAX { "main".to_string() } else { cfg.parts[*t].replace("<TMP>", &std::env::temp_dir().to_string_lossy()) };
+            let part = owned.as_str();
             let file = Path::new(name).file_name().map(|f| f.to_string_lossy().into_owned()).unwrap_or_default();
-            if !file.contains(part) {
+            let found = if part.contains('/') { name.contains(part) } else { file.contains(part) };
+            if !found {
                 let msg = format!("C20 name-part: {:?} does not contain the caller's name part {:?}", name, part);
                 if let Ok(mut g) = VIOLATED.lock() { *g = Some(msg.clone()); }
                 panic!("{}", msg);
